@@ -23,6 +23,29 @@ SYS = {
         "random": {"quick": (300, 40), "thorough": (12000, 60)},
         "trace": {"module": "Cw20Trace", "consts": '  Addr = {"a1", "a2", "a3", "k1"}\n'},
     },
+    "cw3": {
+        "dir": "spec/cw3",
+        "harness": "cw3",
+        "kf": {"D3": "KnownD3", "D6": "KnownD6"},
+        "mc": {
+            "quick": [{"module": "Cw3MC", "consts": "Cw3MC_fixed_q.consts", "view": "View"},
+                      {"module": "Cw3MC", "consts": "Cw3MC_flex_q.consts", "view": "View"}],
+            "thorough": [{"module": "Cw3MC", "consts": "Cw3MC_fixed_t.consts", "view": "View"},
+                         {"module": "Cw3MC", "consts": "Cw3MC_fixed_t2.consts", "view": "View"},
+                         {"module": "Cw3MC", "consts": "Cw3MC_flex_t.consts", "view": "View"},
+                         {"module": "Cw3MC", "consts": "Cw3MC_flex_t2.consts", "view": "View"}],
+        },
+        "gen": {
+            "quick": [{"module": "Cw3MC", "consts": "Cw3MC_gen_fixed.consts", "num": 40, "depth": 40},
+                      {"module": "Cw3MC", "consts": "Cw3MC_gen_flex.consts", "num": 40, "depth": 40},
+                      {"module": "Cw3MC", "consts": "Cw3MC_gen_flex2.consts", "num": 40, "depth": 40}],
+            "thorough": [{"module": "Cw3MC", "consts": "Cw3MC_gen_fixed.consts", "num": 500, "depth": 40},
+                         {"module": "Cw3MC", "consts": "Cw3MC_gen_flex.consts", "num": 500, "depth": 40},
+                         {"module": "Cw3MC", "consts": "Cw3MC_gen_flex2.consts", "num": 500, "depth": 40}],
+        },
+        "random": {"quick": (300, 40), "thorough": (10000, 50)},
+        "trace": {"module": "Cw3Trace", "consts": '  PDEN = 1000\n  PREC = 1000\n  Addr = {"a1", "a2", "a3"}\n'},
+    },
     "thr": {
         "dir": "spec/cw3",
         "harness": "thr",
@@ -69,7 +92,7 @@ PROPS = {
     "C04": {
         "sys": "thr",
         "mode": {"quick": "grid:7", "thorough": "grid:10"},
-        "mc_inv": ["AfterExpiryExact", "NeverPassedWithoutYes", "EarlyPassExact", "EarlyRejectSound", "AfterExpiryRejectSound", "NotBoth", "NeededExact"],
+        "mc_inv": ["AfterExpiryExact", "NeverPassedWithoutYes", "EarlyPassExact", "EarlyRejectSound", "AfterExpiryRejectSound", "NotBoth", "NeededExact", "RulePassedIsCertain", "RuleCanPassExact"],
         "mc_props": [],
         "tr_inv": ["C04_NoPanic", "C04_AfterExpiryExact", "C04_EarlyPassExact", "C04_EarlyRejectSound", "C04_AfterExpiryRejectSound",
                    "C04_NeverPassedWithoutYes", "C04_NotBoth", "C04_StatusConsistent", "C04_BigNoPanic", "C04_BigExact", "C04_BigWithinOne"],
@@ -77,5 +100,36 @@ PROPS = {
         "acts": ["case", "bigcase"],
         "assumptions": ["AbsoluteCount weights above the total weight (rejected by Threshold::validate, where is_rejected underflows) are outside the checked domain",
                         "early-decision soundness at u64 magnitudes rests on the closed forms, whose equivalence with the quantification over all completions is checked exhaustively only on the small domain"],
+    },
+    "C03": {
+        "sys": "cw3",
+        "mc_inv": ["C03_StatusMatches", "C03_PassedHasYes"], "mc_props": ["A_C03"],
+        "tr_inv": ["C03_StatusMatches", "C03_PassedHasYes"],
+        "tr_props": ["T_C03_ExecuteAdmitted", "T_C03_CloseAdmitted"],
+        "acts": ["propose", "vote", "execute", "close", "advance"],
+        "assumptions": ["weights below 10^6 and permille thresholds (full-precision percentages and u64 weights are C04's subject)",
+                        "the closed forms RulePassed/RuleCanPass stand for the quantification over all completions (equivalence model-checked on the complete small domain by Cw3ThresholdMC)"],
+    },
+    "C05": {
+        "sys": "cw3",
+        "mc_inv": ["C05_AtMostOnce"], "mc_props": ["A_C05"],
+        "tr_inv": ["C05_AtMostOnce"],
+        "tr_props": ["T_C05_DispatchExact", "T_C05_ExecutorRule", "T_C05_FailedKeeps", "T_C05_StatusMonotone", "T_C05_IdsIncrease",
+                     "T_C05_Immutable", "T_C05_ExpiryBounded", "T_C05_CloseOnlyExpiredFailed", "T_C05_VoteEmitsNothing"],
+        "acts": ["propose", "vote", "execute", "close", "advance", "flaky"],
+    },
+    "C06": {
+        "sys": "cw3",
+        "mc_inv": ["C06_TotalIsSnapshotSum", "C06_SnapshotAsObserved", "C06_TableTotal"], "mc_props": ["A_C06"],
+        "tr_inv": ["C06_TotalIsSnapshotSum", "C06_SnapshotAsObserved", "C06_TableTotal", "C06_OnlyKnownVoters"],
+        "tr_props": ["T_C06_OneBallot", "T_C06_VoteWindow", "T_C06_BallotWeight", "T_C06_ProposerBallot", "T_C06_LaterChangesIrrelevant", "T_C06_FixedTableStatic"],
+        "acts": ["propose", "vote", "group_update", "advance"],
+    },
+    "C15": {
+        "sys": "cw3",
+        "mc_inv": ["C15_PoolIsHeld", "C15_RecoverableMC"], "mc_props": ["A_C15"],
+        "tr_inv": ["C15_PoolIsHeld"],
+        "tr_props": ["T_C15_ProposeTakes", "T_C15_RefundOnExecute", "T_C15_RefundOnClose", "T_C15_NoOtherMoves", "T_C15_CloseMustSucceed"],
+        "acts": ["propose", "vote", "execute", "close", "approve"],
     },
 }
